@@ -9,15 +9,16 @@
                      compiler, restart comparison, secret loading are arguments: oracles);
                      every failure exit is an explicit [outcome].
     3. schedules   - a request is the sequence of separately locked reads the handler performs;
-                     a reload is the sequence of its separately locked writes; a schedule is an
-                     arbitrary interleaving.  [observations] returns, for every request, which
+                     a reload is the sequence of its separately locked writes (ONE since /repo 337ce64:
+                     loadAuthAnd publishes the authenticators and, through alsoLocked, the route table and
+                     limiters inside the same critical section); a schedule is an arbitrary interleaving.  [observations] returns, for every request, which
                      version of which field each of its reads saw. *)
 From Coq Require Import List Bool Arith.
 Import ListNotations.
 
 (** * 1. Fields of runtimeState (run.go, type runtimeState).
-    First group: assigned by updateAll (incl. configureIngressRateLimits);
-    second group: assigned by loadAuth.  [s.now], [s.mu] and the pointer
+    First group: assigned by updateAllLocked (incl. configureIngressRateLimits);
+    second group: assigned by loadAuthAnd before it calls alsoLocked.  [s.now], [s.mu] and the pointer
     [adaptiveController] itself are never reassigned by a reload. *)
 Inductive field :=
 | FRoutes | FPathToRoute | FTrend | FAdaptive | FGlobalLimit | FRouteLimits
@@ -34,12 +35,12 @@ Definition field_eqb (a b : field) : bool :=
   | _, _ => false
   end.
 
-(** updateAll: s.routes, s.pathToRoute, s.trendSignals, s.adaptiveBackpressure (+ the
-    controller's updateConfig), s.ingressGlobalLimit, s.ingressRouteLimits - one critical section. *)
+(** updateAllLocked: s.routes, s.pathToRoute, s.trendSignals, s.adaptiveBackpressure (+ the
+    controller's updateConfig), s.ingressGlobalLimit, s.ingressRouteLimits; the caller holds the lock. *)
 Definition table_fields : list field :=
   [FRoutes; FPathToRoute; FTrend; FAdaptive; FGlobalLimit; FRouteLimits].
 
-(** loadAuth, the block between s.mu.Lock() and s.mu.Unlock() at its end. *)
+(** loadAuthAnd, the assignments between s.mu.Lock() and the call of alsoLocked. *)
 Definition auth_fields : list field :=
   [FPullAuth; FWorkerAuth; FAdminAuth; FPullByRoute; FWorkerByRoute; FBasic; FForward; FHmac].
 
@@ -76,17 +77,21 @@ Section Reload.
   Definition initial (c : compiled) (a : authset) : rt :=
     mkRuntime c c c c c c a a a a a a a a.
 
-  (** loadAuth's critical section: one Lock, eight assignments, one Unlock. *)
+  (** first half of loadAuthAnd's critical section: eight assignments. *)
   Definition write_auth (a : authset) (r : rt) : rt :=
     mkRuntime (r_routes r) (r_path_to_route r) (r_trend r) (r_adaptive r)
               (r_global_limit r) (r_route_limits r)
               a a a a a a a (inherit a (r_hmac r)).
 
-  (** updateAll: one Lock (deferred Unlock), six assignments. *)
+  (** second half (alsoLocked = updateAllLocked): six assignments, same critical section. *)
   Definition write_tables (c : compiled) (r : rt) : rt :=
     mkRuntime c c c c c c
               (r_pull_auth r) (r_worker_auth r) (r_admin_auth r) (r_pull_by_route r)
               (r_worker_by_route r) (r_basic r) (r_forward r) (r_hmac r).
+
+  (** The whole critical section of a reload: Lock, fourteen assignments, Unlock. *)
+  Definition write_reload (a : authset) (c : compiled) (r : rt) : rt :=
+    mkRuntime c c c c c c a a a a a a a (inherit a (r_hmac r)).
 
   Inductive outcome :=
   | ReadFailed | ParseFailed | CompileFailed | RestartRequired | AuthFailed | Reloaded.
@@ -105,8 +110,8 @@ Section Reload.
         | Some c =>
           if requires_restart c running then (r, running, RestartRequired)
           else match load_secrets c with
-               | None => (r, running, AuthFailed)              (* loadAuth returned an error: before its Lock *)
-               | Some a => (write_tables c (write_auth a r), c, Reloaded)
+               | None => (r, running, AuthFailed)              (* loadAuthAnd returned an error: before its Lock *)
+               | Some a => (write_reload a c r, c, Reloaded)
                end
         end
       end
@@ -117,15 +122,21 @@ End Reload.
     "every failure exit precedes the first write" is a property of a step list. *)
 Inductive fail_point := PRead | PParse | PCompile | PRestart | PSecrets.
 Inductive wkind := WAuth | WTables.
-Inductive rstep := SFallible (p : fail_point) | SWrite (w : wkind).
+(** [SWrite ws] = one critical section assigning the groups [ws]. *)
+Inductive rstep := SFallible (p : fail_point) | SWrite (ws : list wkind).
 
-(** reloadConfig + loadAuth read top to bottom. *)
+(** reloadConfig + loadAuthAnd read top to bottom (since 337ce64: one section for both groups). *)
 Definition reload_prog : list rstep :=
   [SFallible PRead; SFallible PParse; SFallible PCompile; SFallible PRestart;
-   SFallible PSecrets; SWrite WAuth; SWrite WTables].
+   SFallible PSecrets; SWrite [WAuth; WTables]].
 
-(** [exec fails prog] = (writes performed, failure exit taken). *)
-Fixpoint exec (fails : fail_point -> bool) (prog : list rstep) : list wkind * option fail_point :=
+(** The program before 337ce64 (two sections); kept as a statement about that design only. *)
+Definition two_write_prog : list rstep :=
+  [SFallible PRead; SFallible PParse; SFallible PCompile; SFallible PRestart;
+   SFallible PSecrets; SWrite [WAuth]; SWrite [WTables]].
+
+(** [exec fails prog] = (critical sections performed, failure exit taken). *)
+Fixpoint exec (fails : fail_point -> bool) (prog : list rstep) : list (list wkind) * option fail_point :=
   match prog with
   | [] => ([], None)
   | SFallible p :: tl => if fails p then ([], Some p) else exec fails tl
@@ -198,9 +209,11 @@ Definition admin_publish_request : request :=
 
 (** A reload as a list of critical sections, each the list of fields it assigns. *)
 Definition reload_shape := list (list field).
-(** reloadConfig on the pinned tree: loadAuth's section, then updateAll's. *)
-Definition code_shape : reload_shape := [auth_fields; table_fields].
-(** The repair target: one section that assigns everything. *)
+(** reloadConfig: ONE section, loadAuthAnd's assignments followed by updateAllLocked's. *)
+Definition code_shape : reload_shape := [auth_fields ++ table_fields].
+(** The design before 337ce64 (loadAuth's section, then updateAll's): hypothetical, not the code. *)
+Definition two_write_shape : reload_shape := [auth_fields; table_fields].
+(** One section that assigns everything (what [snapshot_design_atomic] asks of the reload side). *)
 Definition single_write_shape : reload_shape := [all_fields].
 
 (** Versions: 0 = the configuration the process started with, k = the k-th successful reload. *)
